@@ -2,8 +2,8 @@
    are mapped to OCaml's; nat, N, positive, Z remain Coq's inductives.  No Extract Constant. *)
 Require Extraction.
 Require Import ExtrOcamlBasic.
-Require Import SV.Base.BT SV.Base.Res SV.Simp.Core SV.Layout.Ty SV.Layout.Value SV.Lang.Ast SV.Comp.Compile SV.Lang.Sem SV.Jets.JetSem SV.Gen.JetTable SV.Jets.JetModel.
+Require Import SV.Base.BT SV.Base.Res SV.Simp.Core SV.Layout.Ty SV.Layout.Value SV.Lang.Ast SV.Comp.Compile SV.Lang.Sem SV.Lang.WT SV.Jets.JetSem SV.Gen.JetTable SV.Jets.JetModel.
 Extraction Language OCaml.
 Extraction "model.ml"
   struct_ty structural reconstruct type_of value_wf cast_ok ty_eqb sty_eqb sval_eqb vty
-  compile_program eval sem_program jet_rows jet_by_name.
+  compile_program eval sem_program jet_rows jet_by_name wt_program jet_sig.
